@@ -23,6 +23,11 @@ theorem shipped_encrypts (maxRecords cacheSize : Nat) : (Cfg.shipped maxRecords 
 `update_records_from_an_existing_store`; `restart_keeps_completed` is proved against this) -/
 theorem scan_has_no_size_test : Gen.Store.scanDropsOversized = false := by decide
 
+/-- record files are named by the hex of the whole key and the start-up scan takes every hex name back for a
+key, whatever its length (regenerated from `generate_filename` / `get_data_from_filename`) -/
+theorem scan_accepts_every_key_length :
+    Gen.Store.fileNameIsFullHex = true ∧ Gen.Store.scanAcceptsEveryHexName = true := by decide
+
 theorem runFrom_append (cfg : Cfg) (dist : Nat → Nat) (s : St) (ops ops' : List Op) :
     runFrom cfg dist s (ops ++ ops') = runFrom cfg dist (runFrom cfg dist s ops) ops' := by
   induction ops generalizing s with
@@ -78,7 +83,7 @@ theorem lookup_crashDisk_of_no_write (s : St) (torn : List (Nat × Nat)) (k : Na
   exact this s.disk
 
 theorem mem_scanIndex {cfg : Cfg} {disk : List (Nat × File)} {k : Nat} {rt : RType} :
-    (k, rt) ∈ scanIndex cfg disk ↔ ∃ f, (k, f) ∈ disk ∧ scanType cfg f = some rt := by
+    (k, rt) ∈ scanIndex cfg disk ↔ ∃ f, (k, f) ∈ disk ∧ scanEntry cfg k f = some rt := by
   induction disk with
   | nil => simp [scanIndex]
   | cons x xs ih =>
@@ -127,11 +132,15 @@ theorem restart_keeps_completed (cfg : Cfg) (dist : Nat → Nat) (s : St) (hd : 
     | other => exact ⟨_, rfl⟩
     | bad => exact absurd h hhdr
   obtain ⟨rt, hrt⟩ := hst
+  -- every hex file name is taken for a key by the scan of the current source (regenerated flags)
+  have hname : nameKept k = true := by
+    simp [nameKept, show Gen.Store.scanAcceptsEveryHexName = true from rfl, show Gen.Store.fileNameIsFullHex = true from rfl]
+  have hrt : scanEntry cfg k (.full v) = some rt := by simp [scanEntry, hname, hrt]
   have hidx : lookup k (scanIndex cfg (crashDisk s torn)) = some rt :=
     lookup_of_mem ((keys_scanIndex_sublist _ _).nodup hnd) (mem_scanIndex.mpr ⟨_, hmem, hrt⟩)
-  have hdisk : lookup k ((crashDisk s torn).filter (fun e => (scanType cfg e.2).isSome)) = some (.full v) := by
+  have hdisk : lookup k ((crashDisk s torn).filter (fun e => (scanEntry cfg e.1 e.2).isSome || !nameKept e.1)) = some (.full v) := by
     apply lookup_of_mem
-    · have : (keys ((crashDisk s torn).filter (fun e => (scanType cfg e.2).isSome))).Sublist (keys (crashDisk s torn)) := by
+    · have : (keys ((crashDisk s torn).filter (fun e => (scanEntry cfg e.1 e.2).isSome || !nameKept e.1))).Sublist (keys (crashDisk s torn)) := by
         simp only [keys]; exact (List.filter_sublist).map _
       exact this.nodup hnd
     · exact List.mem_filter.mpr ⟨hmem, by simp [hrt]⟩
@@ -158,7 +167,7 @@ theorem restart_removed_stay_removed (cfg : Cfg) (dist : Nat → Nat) (s : St)
   have hk : k ∉ keys (crashDisk s torn) := lookup_none_iff.mp hcd
   have hidx : lookup k (scanIndex cfg (crashDisk s torn)) = none :=
     lookup_none_iff.mpr (fun hm => hk ((keys_scanIndex_sublist _ _).subset hm))
-  have hdisk : lookup k ((crashDisk s torn).filter (fun e => (scanType cfg e.2).isSome)) = none := by
+  have hdisk : lookup k ((crashDisk s torn).filter (fun e => (scanEntry cfg e.1 e.2).isSome || !nameKept e.1)) = none := by
     apply lookup_none_iff.mpr
     intro hm
     apply hk
@@ -198,6 +207,7 @@ example :
 
 #print axioms SafeNet.Props.C02.shipped_encrypts
 #print axioms SafeNet.Props.C02.scan_has_no_size_test
+#print axioms SafeNet.Props.C02.scan_accepts_every_key_length
 #print axioms SafeNet.Props.C02.restart_sound
 #print axioms SafeNet.Props.C02.restart_sound_shipped
 #print axioms SafeNet.Props.C02.restart_keeps_completed
